@@ -441,7 +441,7 @@ fn c04_frame(ctx: &mut Ctx, rng: &mut Rng, f: &[u8], thorough: bool, label: &str
         }
         ctx.count("frames_with_all_pairs");
     } else {
-        let n = if thorough { 100_000 } else { 3_000 };
+        let n = if thorough { 20_000 } else { 3_000 };
         for _ in 0..n {
             let a = *rng.pick(&pos);
             let mut b = *rng.pick(&pos);
@@ -463,7 +463,7 @@ fn c04_frame(ctx: &mut Ctx, rng: &mut Rng, f: &[u8], thorough: bool, label: &str
         }
     }
     // odd-weight patterns
-    let n_odd = if thorough { 20_000 } else { 600 };
+    let n_odd = if thorough { 4_000 } else { 600 };
     for _ in 0..n_odd {
         let k = match rng.below(4) {
             0 => 3,
@@ -494,8 +494,8 @@ fn c04_frame(ctx: &mut Ctx, rng: &mut Rng, f: &[u8], thorough: bool, label: &str
     // field / preamble are never flipped
     let allowed = |b: usize| (8..14).contains(&b) || (b >= 24 && b < nbits);
     let starts: Vec<usize> = pos.clone();
-    let patterns = if thorough { 6 } else { 2 };
-    let stride = if thorough || f.len() <= 64 { 1 } else { 1 + f.len() / 80 };
+    let patterns = if thorough { 3 } else { 2 };
+    let stride = if f.len() <= 64 { 1 } else if thorough { 1 + f.len() / 400 } else { 1 + f.len() / 80 };
     let mut si = rng.usize_below(stride);
     while si < starts.len() {
         let st = starts[si];
